@@ -53,6 +53,10 @@ namespace GeographicLib {
     // (and then a negative index into digits_).
     if (xf < 0) xf = 0;
     if (yf < 0) yf = 0;
+    // For -2^-37 <= x < 0 the sum x + tile_ rounds to tile_: the point belongs
+    // (to within 1e-11 m) to the start of the next tile, not to digit "100000".
+    if (xf >= tile_) { xf = 0; ++xh; }
+    if (yf >= tile_) { yf = 0; ++yh; }
     xh += tileoffx_;
     yh += tileoffy_;
     int z = 0;
